@@ -4,15 +4,15 @@ from pyvc.contracts import contract, T
 from .shapes_geonet import *
 from . import models_geonet
 
-S = dict(mode="bv", spec_module="spec_geonet", engine_setup=models_geonet.setup)
+S = dict(mode="bv", spec_module="spec_geonet", engine_setup=models_geonet.setup, native_setup="native_geonet:setup")
 PRE = ["mib_ok(self.mib)", "lpv_valid(self.ego_position_vector)"]
 
 contract(f"{RT}:Router.gn_data_request_beacon", props=["C02", "C20"], shapes={"self": ROUTER}, requires=PRE,
          ensures={"at_most_one_frame": "n_sent() <= 1",
                   "sent_iff_link": "(n_sent() == 1) == (self.link_layer is not None) or n_sent() == 0",
                   "basic_hop_limit_1": "implies(n_sent() == 1, frame_basic_ok(sent0(), 1, 1))",
-                  "lifetime_le_default": "implies(n_sent() == 1, frame_lifetime_ms(sent0()) <= self.mib.itsGnDefaultPacketLifetime * 1000)",
-                  "common_beacon": "implies(n_sent() == 1, sent0()[4:12] == common_int(0, 1, 0, TrafficClass(), self.mib.itsGnIsMobile.value, 0, 1).to_bytes(8, 'big'))",
+                  "lifetime_is_best_for_default": "implies(n_sent() == 1, frame_lifetime_ms(sent0()) == best_ms(self.mib.itsGnDefaultPacketLifetime * 1000))",
+                  "common_beacon": "implies(n_sent() == 1, sent0()[4:12] == common_int(0, 1, 0, 0, self.mib.itsGnIsMobile.value, 0, 1).to_bytes(8, 'big'))",
                   "so_pv_is_ego": "implies(n_sent() == 1, sent0()[12:36] == lpv_int(self.ego_position_vector).to_bytes(24, 'big'))",
                   "length_36": "implies(n_sent() == 1, len(sent0()) == 36)"}, **S)
 
@@ -22,9 +22,8 @@ contract(f"{RT}:Router.gn_data_request_shb", props=["C02", "C20", "C01"], shapes
          ensures={"at_most_one_frame": "n_sent() <= 1",
                   "accepted_iff_handed_over": "(result.result_code.value == 1) == (n_sent() == 1 or self.link_layer is None)",
                   "basic_hop_limit_1": "implies(n_sent() == 1, frame_basic_ok(sent0(), 1, 1))",
-                  "lifetime_le_request": "implies(n_sent() == 1, frame_lifetime_ms(sent0()) <= requested_ms(request, self.mib))",
-                  "lifetime_nonzero": "implies(n_sent() == 1 and requested_ms(request, self.mib) >= 50, frame_lifetime_ms(sent0()) > 0)",
-                  "common_header": "implies(n_sent() == 1, sent0()[4:12] == common_int(request.upper_protocol_entity.value, 5, 0, request.traffic_class, self.mib.itsGnIsMobile.value, request.length, 1).to_bytes(8, 'big'))",
+                  "lifetime_is_best_for_request": "implies(n_sent() == 1, frame_lifetime_ms(sent0()) == best_ms(requested_ms_int(request.max_packet_lifetime, self.mib.itsGnDefaultPacketLifetime)))",
+                  "common_header": "implies(n_sent() == 1, sent0()[4:12] == common_int(request.upper_protocol_entity.value, 5, 0, tc_int(request.traffic_class), self.mib.itsGnIsMobile.value, request.length, 1).to_bytes(8, 'big'))",
                   "so_pv_is_ego": "implies(n_sent() == 1, sent0()[12:36] == lpv_int(self.ego_position_vector).to_bytes(24, 'big'))",
                   "media_dependent_zero": "implies(n_sent() == 1, sent0()[36:40] == bytes(4))",
                   "payload": "implies(n_sent() == 1, sent0()[40:] == request.data)"},
